@@ -290,6 +290,11 @@ def _check_make_args_unique(run: Run, ctx, m) -> None:
         ok_order = pb is not None and qb is not None
         if ok_order:
             ok_order = cfg.dominates(pb[0], gn) and cfg.dominates(gn, qb[0]) and cfg.postdominates(qb[0], gn) and pb[0] is not gn and qb[0] is not gn
+    from ..lib import pop_is_lifo
+
+    for o_ in pops:
+        if isinstance(o_.node, ast.Call):
+            run.check(pop_is_lifo(o_.node), "C02.R2", vl, stmt_of(o_.node), "the renaming removed is the newest one", f"{ast.unparse(o_.node)} removes another entry than the newest: the renaming of an enclosing lambda's parameter is dropped while its body is still being renamed", ".pop()")
     run.check(ok_order, "C02.R2", vl, vl.node, "renaming frames are pushed before and popped after the body is visited, on every path", "replace_args.visit_Lambda does not pair its pushes and pops around generic_visit: renamings leak out of (or are missing inside) the lambda's scope")
     if ok_order:
         n_push, n_pop = pb[1], qb[1]
@@ -808,6 +813,10 @@ def _check_shadow_lambda(run: Run, ctx, m, vl: FuncInfo, prop: str) -> None:
         ok = None
     else:
         pops = [e for e in evs if e.name == "pop" and e.recv is not None and root_of(e.recv) == selfp_]
+        from ..lib import pop_is_lifo as _lifo_d
+
+        for q_ in pops:
+            run.check(_lifo_d(q_), rule_d, vl, vl.node, "the shadow frame removed is the newest one", "the frame removed after the lambda body is not the newest one")
         ok = len(defines) == 1 and len(pops) == 1 and defines[0].recv == pops[0].recv and event_before(ctx, vl, defines[0], gv) and event_before(ctx, vl, gv, pops[0]) and event_after(ctx, vl, pops[0], gv)
     if not withs and ok is not None:
         run.check(ok, rule_d, vl, vl.node, "shadow frame pushed before and popped after the body is visited, on every path", "the shadow frame is not pushed before / popped after the visit of the lambda body on every path")
